@@ -23,6 +23,9 @@ RULES = {
              'the map entry whenever the lookup finds one (tombstones included); a literal version is used only where the lookup found nothing',
     'C02.f': 'a successful mutation makes the version grow: the version stored by the increment for an existing key is old.version + 1 '
              '(an addition on the old entry\'s version); a plain copy of the old version is stored only under the in-conflict-marker test',
+    'C02.g': 'the store refuses on the version it WOULD store: the branch that builds VersionError is controlled by a comparison between the '
+             'result of next_version and the stored version (directly, or in a helper that receives that result) — a test on the presented '
+             'version lets a write through whose stored version cannot grow (saturated), so two writers with the same base both succeed',
     'C02.d': 'a success reply of the store / the increment is built only on paths that passed an insert into Database.map '
              '(an acknowledged write is a committed write with a new version)',
 }
@@ -265,6 +268,42 @@ def success_implies_write(ck, m):
               'every success reply of %s is preceded by an insert into Database.map' % short(b.id) if ins and succ and not bad else
               '%s can answer success (%s) on a path that writes nothing: the key keeps its version, so a second writer presenting the '
               'same base version succeeds too' % (short(b.id), bad), '%s:%s' % (b.file, b.line))
+    # ---- C02.g -------------------------------------------------------------------------
+    sbod = store_fn(m)
+    nv_calls = [bi for bi, t in sbod.calls() if callee(t).endswith('bo::Change::next_version')]
+    ve_blocks = [bi for bi, bl in enumerate(sbod.blocks) if not bl.get('cleanup') for s in bl['s']
+                 if s['k'] == 'assign' and s['r']['k'] == 'agg' and s['r'].get('variant') == 'VersionError' and s['r'].get('adt', '').endswith('bo::Response')]
+    controlled = False
+
+    def from_nv(body, op_, nvs):
+        return any(r[0] == 'call' and r[1] in nvs for r in origins(body, op_, stop_at_calls=True))
+    for bi, bl in enumerate(sbod.blocks):
+        for s in bl['s']:
+            if s['k'] == 'assign' and s['r']['k'] == 'bin' and s['r']['op'] in ('Le', 'Lt', 'Ge', 'Gt'):
+                if from_nv(sbod, s['r']['a'], nv_calls) or from_nv(sbod, s['r']['b'], nv_calls):
+                    for (s2, tt, ft) in core.bool_switches(sbod, local=s['l']['l']):
+                        if any(sbod.dominates(tt, v) or sbod.dominates(ft, v) for v in ve_blocks):
+                            controlled = True
+    # a bool helper that receives the next_version result and compares it
+    for bi, t in sbod.calls():
+        cb_ = m.prog.bodies.get(callee(t))
+        if cb_ is None or cb_.locals[0] != 'bool':
+            continue
+        fed = [i for i, a in enumerate(t['args']) if from_nv(sbod, a, nv_calls)]
+        if not fed:
+            continue
+        for bl in cb_.blocks:
+            for s in bl['s']:
+                if s['k'] == 'assign' and s['r']['k'] == 'bin' and s['r']['op'] in ('Le', 'Lt', 'Ge', 'Gt'):
+                    if any(r[0] == 'param' and (r[1] - 1) in fed for k_ in ('a', 'b') for r in origins(cb_, s['r'][k_])):
+                        for (s2, tt, ft) in core.bool_switches(sbod, bi):
+                            if any(sbod.dominates(tt, v) or sbod.dominates(ft, v) for v in ve_blocks):
+                                controlled = True
+    ck.ob('C02.g', short(sbod.id), 'refusal-on-the-resulting-version', bool(ve_blocks) and bool(nv_calls) and controlled,
+          'VersionError is decided by comparing next_version\'s result with the stored version' if controlled else
+          'the branch that refuses a write (VersionError at %s) is not controlled by a comparison of next_version\'s result with the stored '
+          'version: at a stored version that cannot grow (i32::MAX, saturating add) a second writer presenting the same base is accepted and '
+          'overwrites the first' % [sbod.loc(v) for v in ve_blocks], '%s:%s' % (sbod.file, sbod.line))
     # ---- C02.f -------------------------------------------------------------------------
     ib = increment_fn(m)
     aggs = [(bi2, s['r']) for bi2, bl in enumerate(ib.blocks) if not bl.get('cleanup') for s in bl['s']
